@@ -76,7 +76,8 @@ def expand(item, seed):
             for fams in ((4,) * 4, (6, 4, 6, 4)):
                 addrs = [{"fam": fams[i], "outcome": o if o != "other" else OTHER[i % 3]} for i, o in enumerate(pat)]
                 yield {"scheme": "ws", "host": "name", "port": None, "path": "/", "query": None, "addrs": addrs,
-                       "sockopt": [[1, 15, 1]] if len(pat) % 2 else [], "timeout": 3 * S, "seed": 1}
+                       "sockopt": [[1, 15, 1]] if len(pat) % 2 else [], "timeout": 3 * S if len(pat) != 2 else None, "seed": 1,
+                       "stdlib_default_timeout": S // 4 if len(pat) == 2 else None}
     elif k == "urlgrid":
         for host in HOSTFORMS:
             for port in PORTS:
@@ -108,6 +109,8 @@ def gen(rng):
                        for _ in range(n)]
     sc["sockopt"] = rng.choice(([], [], [[1, 15, 1]], [[6, 18, 4000], [1, 7, 65536]]))
     sc["timeout"] = rng.choice((None, 1 * S, 3 * S, S // 2))
+    if rng.random() < 0.2:
+        sc["stdlib_default_timeout"] = rng.choice((S // 4, 7 * S))  # the application called socket.setdefaulttimeout(x)
     return sc
 
 
@@ -142,7 +145,10 @@ def run(sc, choices=None):
     except (KeyError, TypeError, ValueError) as e:
         raise InvalidScenario(str(e))
     url = build_url(sc)
-    w = World(seed=int(sc.get("seed", 1)), step_cap=400_000)
+    netcfg = {}
+    if sc.get("stdlib_default_timeout") is not None:
+        netcfg["default_socket_timeout"] = int(sc["stdlib_default_timeout"]) / S
+    w = World(seed=int(sc.get("seed", 1)), step_cap=400_000, net_cfg=netcfg)
     peers = []
     tlspeers = []
     tls = malformed is None and sc["scheme"] == "wss"
@@ -298,4 +304,4 @@ def run(sc, choices=None):
 
 
 def sample_view(sc, r):
-    return {"url": build_url(sc), "addresses": sc.get("addrs"), "sockopt": sc.get("sockopt"), "timeout_ticks": sc.get("timeout")}
+    return {"url": build_url(sc), "addresses": sc.get("addrs"), "sockopt": sc.get("sockopt"), "timeout_ticks": sc.get("timeout"), "stdlib_default_timeout_ticks": sc.get("stdlib_default_timeout")}
